@@ -55,6 +55,24 @@ def gram_except(factors: Sequence[np.ndarray], n: int) -> np.ndarray:
     return Y
 
 
+def tucker_fast(core, factors) -> np.ndarray:
+    """core x_1 U_1 ... x_N U_N by one mode product after the other (ref.den_tucker is a single unoptimised einsum whose cost
+    is prod(core shape) * prod(shape): too slow for the larger problems)."""
+    Y = np.asarray(core, dtype=float)
+    for k, U in enumerate(factors):
+        Y = np.moveaxis(np.tensordot(np.asarray(U, dtype=float), Y, axes=(1, k)), 0, k)
+    return Y
+
+
+def den(x) -> np.ndarray:
+    """ref.den with the cheap evaluation order for Tucker tensors (also as parts of a sum)"""
+    if isinstance(x, ttb.ttensor):
+        return tucker_fast(ref.den(x.core), x.factor_matrices)
+    if isinstance(x, ttb.sumtensor):
+        return sum(den(p) for p in x.parts)
+    return ref.den(x)
+
+
 def sq(A) -> float:
     A = np.asarray(A, dtype=float)
     return float(np.sum(A * A))
@@ -163,15 +181,101 @@ def sparsify(A: np.ndarray, density: float, seed: int) -> np.ndarray:
     return np.where(mask, A, 0.0)
 
 
-def make_ttensor_data(shape, R, seed, noise, scale=1.0) -> ttb.ttensor:
-    """Tucker-format data: core = superdiagonal(3*2^-k) + noise*E of size r_k in [R, n_k], generic factors."""
+# factor-matrix structures for Tucker data and Kruskal parts (class 6: exactly special, epsilon-perturbed, generic; class 8:
+# column norms spread over many decades with the core / the weights compensating)
+FSTYLES = ["generic", "generic", "orthonormal", "unit", "unit", "near-orth", "near-unit", "identity", "near-identity", "skewed",
+           "mixed"]
+NEAR_EPS = [1e-10, 1e-9, 1e-8, 1e-7, 1e-6, 1e-5]
+
+
+def styled_factor(rng, n: int, c: int, style: str) -> np.ndarray:
+    """n x c factor matrix (c <= n) with the named structure.
+    generic: standard normal; orthonormal: Q of a QR factorisation (what hosvd / tucker_als return); unit: unit-length columns
+    that are not orthogonal (a normalised dictionary); near-orth / near-unit / near-identity: the special structure plus a
+    relative perturbation drawn from NEAR_EPS; identity: leading columns of the identity (rows permuted half of the time); skewed: generic
+    columns scaled by 10^k, k in -9..9 (the caller compensates in the core / the weights)."""
+    M = rng.standard_normal((n, c))
+    if style == "generic" or c > n:
+        return M
+    eps = float(NEAR_EPS[int(rng.integers(0, len(NEAR_EPS)))])
+    if style in ("orthonormal", "near-orth"):
+        Q, _ = np.linalg.qr(M)
+        return Q if style == "orthonormal" else Q + eps * rng.standard_normal((n, c))
+    if style in ("unit", "near-unit"):
+        U = M / np.sqrt(np.sum(M * M, axis=0))[None, :]
+        return U if style == "unit" else U * (1.0 + eps * rng.uniform(-1, 1, c))[None, :]
+    if style in ("identity", "near-identity"):
+        E = np.eye(n)[:, :c] if rng.uniform() < 0.5 else np.eye(n)[rng.permutation(n), :][:, :c]
+        return E if style == "identity" else E + eps * rng.standard_normal((n, c))
+    if style == "skewed":
+        return M * (10.0 ** rng.integers(-9, 10, c))[None, :]
+    raise ValueError(style)
+
+
+def make_ttensor_data(shape, R, seed, noise, scale=1.0, fstyle="generic", core_holder="dense") -> ttb.ttensor:
+    """Tucker-format data: core = superdiagonal(3*2^-k) + noise*E of size r_k in [R, n_k]; factor matrices of structure
+    `fstyle` (see styled_factor; "mixed": a structure drawn per mode); with "skewed" factors the core is divided by the
+    column scales, so the tensor keeps its magnitude.  core_holder "sparse": the core is held as an sptensor."""
     rng = np.random.default_rng([23, seed])
     cshape = [int(rng.integers(min(R, n), n + 1)) for n in shape]
     core = noise * rng.standard_normal(tuple(cshape))
     for k in range(min(cshape)):
         core[(k,) * len(cshape)] += 3.0 * 2.0 ** (-k)
-    fm = [rng.standard_normal((n, c)) for n, c in zip(shape, cshape)]
-    return ttb.ttensor(ttb.tensor(F(core * scale), tuple(cshape)), [F(f) for f in fm])
+    if fstyle == "generic":
+        fm = [rng.standard_normal((n, c)) for n, c in zip(shape, cshape)]
+    else:
+        rng2 = np.random.default_rng([79, seed])
+        fm = []
+        for k, (n, c) in enumerate(zip(shape, cshape)):
+            st_k = fstyle if fstyle != "mixed" else FSTYLES[int(rng2.integers(0, len(FSTYLES) - 1))]
+            M = styled_factor(rng2, n, c, st_k)
+            if st_k == "skewed":
+                cn = np.sqrt(np.sum(M * M, axis=0))
+                core = core / (cn / np.sqrt(n)).reshape([-1 if j == k else 1 for j in range(len(shape))])
+            fm.append(M)
+    core = core * scale
+    if core_holder == "sparse":
+        G = make_sptensor(core, seed, "random")
+    else:
+        G = ttb.tensor(F(core), tuple(cshape))
+    return ttb.ttensor(G, [F(f) for f in fm])
+
+
+def restyle_kruskal(w, fm, seed, kstyle):
+    """the same Kruskal tensor (up to rounding) with another distribution of the column norms / of the structure:
+    unit: unit-length columns, weights carry the norms (a normalised model); near-unit: column norms within NEAR_EPS of 1;
+    skewed: column norms 10^k, k in -18..18, weights compensating (columns of norm 1e-18 carrying a weight 1e+18);
+    orth: the columns of every mode with room are replaced by orthonormal ones (another tensor, exactly orthogonal factors)."""
+    w = np.array(w, dtype=float)
+    fm = [np.array(f, dtype=float) for f in fm]
+    if kstyle == "generic":
+        return w, fm
+    rng = np.random.default_rng([83, seed])
+    if kstyle == "orth":
+        out = []
+        for f in fm:
+            if f.shape[0] >= f.shape[1]:
+                f, _ = np.linalg.qr(f)
+            out.append(f)
+        return w, out
+    out = []
+    for f in fm:
+        cn = np.sqrt(np.sum(f * f, axis=0))
+        cn = np.where(cn > 0, cn, 1.0)
+        if kstyle == "unit":
+            tgt = np.ones_like(cn)
+        elif kstyle == "near-unit":
+            tgt = 1.0 + float(NEAR_EPS[int(rng.integers(0, len(NEAR_EPS)))]) * rng.uniform(-1, 1, cn.shape)
+        elif kstyle == "skewed":
+            tgt = 10.0 ** rng.integers(-18, 19, cn.shape)
+        else:
+            raise ValueError(kstyle)
+        out.append(f * (tgt / cn)[None, :])
+        w = w * (cn / tgt)
+    return w, out
+
+
+KSTYLES = ["generic", "generic", "unit", "unit", "near-unit", "orth", "skewed"]
 
 
 def make_ktensor(weights, fm) -> ttb.ktensor:
@@ -255,8 +359,9 @@ def build_data(case: Dict[str, Any]):
     scale = float(case.get("scale", 1.0))  # data magnitude: every relation checked is scale-free
     dtype = case.get("dtype", "float64")
     if holder == "ttensor":
-        X = make_ttensor_data(shape, int(case["R"]), seed, max(noise, 1e-2), scale)
-        return X, ref.den(X)
+        X = make_ttensor_data(shape, int(case["R"]), seed, max(noise, 1e-2), scale, case.get("fstyle", "generic"),
+                              case.get("core_holder", "dense"))
+        return X, den(X)
     if dtype in INT_RANGE and holder in ("tensor", "sptensor"):
         # integer-valued data for an integer holder: the model + noise scaled to the magnitude class and rounded
         lo, hi = INT_RANGE[dtype]
@@ -276,25 +381,33 @@ def build_data(case: Dict[str, Any]):
         # dense noise part + Kruskal part (+ optionally a sparse part)
         w, fm = true_model(shape, int(case["rtrue"]), seed, style)
         w = w * scale
-        K = make_ktensor(w, fm)
         E = A - ref.den_kruskal(w, fm)
+        w, fm = restyle_kruskal(w, fm, seed, case.get("kstyle", "generic"))
+        K = make_ktensor(w, fm)
         parts: List[Any] = [make_tensor(E), K]
         if case.get("sum_sparse"):
             Sp = sparsify(dense_problem(shape, 1, seed + 1, 0.5, style), 0.5, seed) * scale
             parts.append(make_sptensor(Sp, seed))
+        if case.get("sum_tucker"):
+            parts.append(make_ttensor_data(shape, 1, seed + 2, 0.3, 0.5 * scale, case.get("fstyle", "generic")))
         X = ttb.sumtensor(parts, copy=False)
-        return X, sum(ref.den(p) for p in parts)
+        return X, sum(den(p) for p in parts)
     raise ValueError(holder)
 
 
-SCALES = [1.0, 1.0, 1.0, 1e-6, 1e-3, 1e4, 1e6]  # data magnitudes; the checked relations are scale-free (relative bounds)
+# data magnitudes; the checked relations are scale-free (relative bounds).  1e-9 .. 1e-12 lie below every absolute tolerance
+# a "close to zero?" test could use (numpy's default atol is 1e-8), 1e+9 above
+SCALES = [1.0, 1.0, 1.0, 1e-6, 1e-3, 1e4, 1e6, 1e-9, 1e-10, 1e-12, 1e9]
+GUESS_SCALES = [1.0, 1.0, 1.0, 1.0, 1e-9, 1e-12, 1e9, "columns"]  # magnitude of a given starting guess ("columns": 10^k per column)
 
 
 def _option_strategies():
     from hypothesis import strategies as st
 
-    stoptols = st.one_of(st.sampled_from([0.0, 0.0, 1e-4, 1e-2, 0.5]),
-                         st.integers(-48, 0).map(lambda k: float(10.0 ** (k / 4.0))))  # 0 and 1e-12 .. 1, log-uniform
+    # 0, 1e-12 .. 1 log-uniform, and values no fit change can reach (>= 1: the run ends at the first test it makes)
+    stoptols = st.one_of(st.sampled_from([0.0, 0.0, 0.0, 1e-4, 1e-4, 1e-3, 1e-2, 1e-2, 0.1, 0.5, 2.5, 1e300]),
+                         # (centred: Hypothesis favours 0 and the ends of an integer range; 0 -> 1e-6)
+                         st.integers(-24, 24).map(lambda k: float(10.0 ** ((k - 24) / 4.0))))
     printitns = st.sampled_from([0, 0, 1, 1, 2, 3, -1, -5, 7, 1000])  # <= 0 silent; larger than any iteration count
     return stoptols, printitns
 
@@ -370,6 +483,11 @@ def build_init(case: Dict[str, Any]):
         w = rng.uniform(0.5, 2.0, R)
     else:
         w = np.ones(R)
+    gs = case.get("init_scale", 1.0)
+    if gs == "columns":  # every column of every mode at its own magnitude 10^k, k in -9..9
+        fm = [f * (10.0 ** rng.integers(-9, 10, R))[None, :] for f in fm]
+    elif float(gs) != 1.0:
+        fm = [f * float(gs) for f in fm]
     return make_ktensor(w, fm)
 
 
